@@ -12,6 +12,10 @@ type loop struct {
 	continuePos []int
 	breakPos    []int
 	isRangeLoop bool
+
+	// Number of switch subjects currently kept on the stack by switch
+	// statements that enclose the code being compiled within this loop.
+	pendingSwitchValues int
 }
 
 func (l *loop) end() {
